@@ -27,7 +27,8 @@ from collections.abc import MutableMapping
 from contextlib import contextmanager
 from struct import pack, unpack_from
 
-from .ebpf import AssembleError, Expression, Opcode, Map, FuncId
+from .ebpf import (
+    AssembleError, Expression, FuncId, Map, Memory, Opcode, fmtsize)
 from .bpf import (
     MapType, UpdateFlags, create_map, delete_elem, get_next_key, lookup_elem,
     lookup_and_delete_elem, update_elem)
@@ -93,8 +94,15 @@ class HashGlobalVarDesc:
             update_elem(fd, pack("B", self.count),
                         pack("q" if self.fmt.islower() else "Q", value))
             return
+        if isinstance(value, Memory) and not (
+                isinstance(value.fmt, str) and fmtsize(value.fmt) == 8):
+            # the map value has 8 bytes: do not read them from the address
+            # of a smaller variable, store its value
+            address = Expression.get_address(value, 3, True, True)
+        else:
+            address = value.get_address(3, True, True)
         with ebpf.save_registers([3]):
-            with value.get_address(3, True, True):
+            with address:
                 with ebpf.save_registers([0, 1, 2, 4, 5]), \
                         ebpf.get_stack(4) as stack:
                     ebpf.r1 = ebpf.get_fd(ebpf.__dict__[self.name].fd)
